@@ -67,8 +67,8 @@ def oracle(name, ib, mb, meta):
         if b.op.startswith('failalloc'): faulty = 'clear' not in b.op
         if not b.op.startswith('frame 0 ') or b.fault: continue
         if faulty:
-            ctx, fr = frame_of(b); tr.feed(dec(fr + bytes(max(0, 36 - len(fr))))); continue
-        ctx, fr = frame_of(b); d = dec(fr + bytes(max(0, 36 - len(fr))))
+            ctx, fr = frame_of(b); tr.feed(dec(rxview(b, fr))); continue
+        ctx, fr = frame_of(b); d = dec(rxview(b, fr))
         sn = [o for _, _, o in sends_of(b)]
         if d['tos'] in (0, 1) and d['opc'] == 0:
             exp = tr.expect_reply(d)
@@ -90,7 +90,7 @@ def count(name, lines, ib, stats, meta):
     tr = MapperTracker(); hist = 'start'
     for b in ib:
         if not b.op.startswith('frame 0 '): continue
-        ctx, fr = frame_of(b); d = dec(fr + bytes(max(0, 36 - len(fr))))
+        ctx, fr = frame_of(b); d = dec(rxview(b, fr))
         if d['tos'] in (0, 1) and d['opc'] == 0:
             stats['evaluations'] += 1
             stats['distinct'].add((d['tos'], gcls((d['body'][0] << 8) | d['body'][1]), d['esrc'] != d['rsrc'], tr.expect_reply(d), hist))
